@@ -446,6 +446,9 @@ func enumerate(thorough bool) []Case {
 						}
 						for _, end := range ends {
 							for n := 1; n <= 2; n++ {
+								if !thorough && l >= 2 && n == 1 {
+									continue // quick: longer pragma chains with 2 shards only
+								}
 								o := append([]int{}, ops...)
 								p := append([]int{}, pr...)
 								if end >= 0 {
